@@ -151,6 +151,19 @@ func c02Ops() []concOp {
 			vrt.GoNamed("producerOuter", func() { po.Next(0); po.Next(1); po.Complete() })
 			return s
 		}},
+		// a subscribe function that fails after it has started delivering from a goroutine of its own: the
+		// Error the library makes of the panic must go through the same serialisation as the values
+		{name: "NewObservable(starts a producer, then panics)", build: func(a, b ro.Observable[int], set *recSet, out *h.Rec, place string) ro.Subscription {
+			o := ro.NewObservable(func(d ro.Observer[int]) ro.Teardown {
+				vrt.GoNamed("inner-producer", func() { d.Next(1); d.Next(2) })
+				panic(h.ErrCb)
+			})
+			return sub(placeInt(o, place), out)
+		}},
+		{name: "TakeUntil(a, notifier whose Subscribe panics)", build: func(a, b ro.Observable[int], set *recSet, out *h.Rec, place string) ro.Subscription {
+			bad := ro.NewObservable(func(d ro.Observer[int]) ro.Teardown { panic(h.ErrCb) })
+			return sub(placeInt(ro.TakeUntil[int](bad)(a), place), out)
+		}},
 		// one producer calling a safe destination from two goroutines
 		{name: "SafeObservable", oneDest: true, modeA: h.Safe, build: func(a, b ro.Observable[int], set *recSet, out *h.Rec, place string) ro.Subscription {
 			return sub(placeInt(a, place), out)
